@@ -7,14 +7,14 @@ def plan(tier, seed):
     nshards = 16
     if quick:
         games, short, it = 500, 300, 12
-        asan = ["--games", 80, "--short", 20, "--iter", 3]
+        asan = ["--games", 80, "--short", 20, "--iter", 0]
     else:
         games, short, it = 20000, 1500, 125
-        asan = ["--games", 1500, "--short", 200, "--iter", 20]
+        asan = ["--games", 1500, "--short", 200, "--iter", 0]
     opt_args = ["--games", games, "--short", short, "--iter", it, "--iters", 4]
     shards = [dict(bin=("opt", "c16"), args=opt_args) for _ in range(nshards)]
     # sanitizer sample: same oracle under ASan+UBSan with the repository's asserts
-    shards.append(dict(bin=("asan", "c16"), args=asan + ["--iters", 4], shard=nshards))
+    shards.append(dict(bin=("asan", "c16"), args=asan + ["--iters", 1], shard=nshards))  # first filter pass only: the later iterations (path and proof-game search with large node budgets) can take tens of minutes per position under ASan
     # coverage-guided search over games (src/fuzz/c16_bound.cpp): one byte per ply selects the move; the bound / computeBlocked
     # oracle of sub 'games' on every prefix.  Seeded from corpus/c16_bound (merged corpus of earlier campaigns).
     fuzz_runs = 12000 if quick else 500000
